@@ -107,7 +107,7 @@ func Verif_C13_tounicode() {
 	cs := verifCodeSpaces[verifrt.Choice("codespace", 2)]
 	codec, err := charcode.NewCodec(cs)
 	verifrt.Assert(err == nil, "code space accepted")
-	j := 1 + verifrt.Choice("entries", 3+verifrt.Tier())
+	j := 1 + verifrt.Choice("entries", 2+verifrt.Tier())
 	data := map[charcode.Code]string{}
 	var codes []charcode.Code
 	var bytesOf [][]byte
